@@ -1,4 +1,6 @@
 import HpoProofs.Text
+import HpoProofs.TextRefine
+import HpoProps.C07
 /-!
 # C09 — the JAX text loaders build exactly the ontology the three files describe
 
@@ -8,9 +10,23 @@ The theorems are token level and unbounded: for every id below 2^32, every name 
 text), any number of extra trailing columns with any content.
 `renderG2P`, `renderP2G`, `renderDiseaseRow`, `renderStanza` (in `HpoProofs/Text.lean`) are the
 JAX renderings of a fact; `IsTail '\t' tail` = nothing or a tab followed by any text.
+
+Whole files (`HpoProofs/TextRefine.lean`): a `Rendering` is one way of writing the three files down
+(header lines, release date, blocks of hp.obo in file order, rows of the gene file and of
+phenotype.hpoa, file endings); `Rendering.Ok` are the lexical side conditions; `R.terms`, `R.grows`,
+`R.drows` are the facts in file order.
+* `C09_file_in_order`: loading = the Builder-model program over the facts in file order;
+* `C09_obo_builder_run`, `C09_rows_annotation_calls`, `C09_file_is_builder_run`: that program is a
+  builder run of the checked API (`runB` / `runA` of C01, C02, C16) — literally the same ontology;
+* `C09_file`: any two renderings of the same facts (stanzas and rows permuted, other labels, extra
+  tags, other stanzas, endings) load to ontologies with equal lookups (via `C16_*`);
+* `C09_file_builder`: … equal to what the checked Builder API builds from the facts in any order,
+  `Reachable`, hence round-trips through the binary format (`C07_roundtrip`);
+* `C09_unknown_term`: a row naming a term without stanza makes the load fail with `DoesNotExist`;
+  `C09_isa_absent_target`: what an `is_a` line naming a term without stanza does (hence `IsaClosed`).
 -/
 namespace Hpo.C09
-open Hpo Hpo.Text
+open Hpo Hpo.Text Hpo.C01 Hpo.C16 Hpo.Binary
 
 /-! ## lexing -/
 
@@ -212,23 +228,20 @@ theorem C09_hpoa_file (rows : List DRow) (ending : List Char) (h : ∀ r ∈ row
     diseaseRows (lines (joinWith '\n' (rows.map DRow.render) ++ ending)) o = annotateDiseases rows o :=
   hpoaFile_render rows ending h hend o
 
-/-- **C09_file (partial).** Loading three rendered files — for ANY list of stanzas / rows, i.e. any
-order — is exactly the Builder-model program `buildFromFacts` over the facts in file order:
+/-- **Loading = the builder program in file order.** Loading three rendered files — for ANY list of
+stanzas / rows, i.e. any order — is exactly the Builder-model program `buildFromFacts` over the facts
+in file order:
 `add_term` per `[Term]` stanza (with name, obsolete flag, replacement), the release version,
 `add_parent_unchecked` per `is_a` line, `connect_all_terms`, one `annotate_gene` per gene row, one
 `annotate_omim_disease` / `annotate_orpha_disease` per OMIM / ORPHA row that is not `NOT`,
 `calculate_information_content`, `build_with_defaults`; header / comment lines, other stanza types
-and other databases contribute nothing. Both loaders (`tr`).
-
-Full statement `C09_file` (NOT proved here, `_partial`):
-  `∀ perm of items / grows / drows, loadJax … (render perm) ≃ buildVia Builder API facts ≃ loadFacts 3 facts`
-(observational equality of the dumps). The missing step — `buildFromFacts` does not depend on the
-order of its stanzas and rows and agrees with the checked `add_parent` API and with the binary
-loader — is the statement of C16 about the Builder model; for C09 it rests on the correspondence
-check (`same 0 1`, `same 0 2` on every well-formed generated case). The three file endings the
-generator emits (nothing / one line feed / line feed + blank line after the last block; nothing /
-one line feed after the last row) and rows with trailing empty columns (`IsTail`) are covered. -/
-theorem C09_file_partial (tr : Bool)
+and other databases contribute nothing. Both loaders (`tr`). No hypothesis on the facts themselves
+(any ids, cycles, unknown terms: the equation also covers failing and panicking loads).
+The three file endings the generator emits (nothing / one line feed / line feed + blank line after
+the last block; nothing / one line feed after the last row) and rows with trailing empty columns
+(`IsTail`) are covered. (Formerly `C09_file_partial`; nothing in it is partial: that the program does
+not depend on the order and agrees with the checked Builder API is `C09_file`, `C09_file_builder`.) -/
+theorem C09_file_in_order (tr : Bool)
     (pre post : List (List Char)) (y1 y2 y3 y4 m1 m2 d1 d2 : Nat)
     (hy1 : y1 < 10) (hy2 : y2 < 10) (hy3 : y3 < 10) (hy4 : y4 < 10) (hm1 : m1 < 10) (hm2 : m2 < 10)
     (hd1 : d1 < 10) (hd2 : d2 < 10)
@@ -249,6 +262,177 @@ theorem C09_file_partial (tr : Bool)
   loadJax_render tr pre post y1 y2 y3 y4 m1 m2 d1 d2 hy1 hy2 hy3 hy4 hm1 hm2 hd1 hd2 hpre hok items hitems
     oboEnd hoboEnd hdr grows geneEnd hnl hh hg hgeneEnd drows hpoaEnd hd hhpoaEnd
 
+/-- the same statement for a `Rendering` (the bundle of all these parameters) -/
+theorem C09_rendering_in_order (tr : Bool) (R : Rendering) (h : R.Ok) :
+    loadJax tr R.obo (R.gene tr) R.hpoa = buildFromFacts R.terms R.version R.grows R.drows :=
+  loadJax_rendering tr R h
+
+/-! ## the load is a builder run of the checked API (C01 / C02 / C16) -/
+
+/-- **hp.obo = `runB`.** When every `is_a` target is a `[Term]` stanza of the file (`IsaClosed`),
+the builder half of `read_obo_file` is the term-level call history of C01 / C16 on the empty
+builder: one `BOp.term` per stanza (name, id, obsolete flag, replacement), in file order, followed
+by one `BOp.parent` (= checked `add_parent`; `add_parent_unchecked` on present ids is the same
+transition, `C01_unchecked_eq_checked`) per `is_a` line, in file order — plus the release version
+of the header (`setV`). `none` (an id ≥ 10^7: the arena panics) on both sides alike. -/
+theorem C09_obo_builder_run (items : List Item) (v : Nat × Nat × Nat) (hisa : IsaClosed (itemsTerms items)) :
+    oboBuild { terms := itemsTerms items, version := v } =
+      (runB ((stanzaFacts (itemsTerms items)).map TermFact.op ++
+        (stanzaEdges (itemsTerms items)).map edgeOp) {}).map (setV v) :=
+  oboBuild_eq_runB _ v (itemsTerms_bare items) hisa
+
+/-- **An `is_a` line naming a term that has no stanza** (why `IsaClosed` is a hypothesis): the
+loader's `add_parent_unchecked` does not fail — the child gets a parent id that resolves to nothing
+and the arena's placeholder slot 0 gets the child — whereas the checked `add_parent` refuses
+(`DoesNotExist`, builder unchanged). Such files are outside `C09_file`; the generator does not
+emit them (the real JAX files are closed). -/
+theorem C09_isa_absent_target (o : Onto) (p c : Nat) (tc : Term) (hp : getT o.terms p = none)
+    (hps : p < maxId) (hc : getT o.terms c = some tc) (hcs : c < maxId) :
+    o.addParentUnchecked p c =
+      some { o with slot0 := o.slot0.addChild c, terms := modT o.terms c (·.addParent p) } ∧
+    o.addParent p c = .err .doesNotExist := by
+  have h1 : ¬ p ≥ maxId := Nat.not_le.2 hps
+  have h2 : ¬ c ≥ maxId := Nat.not_le.2 hcs
+  constructor
+  · simp [Onto.addParentUnchecked, Onto.modUnchecked, h1, h2, hp, hc]
+  · simp [Onto.addParent, Onto.get, arenaGet, h1, h2, hp, hc]
+
+/-- **gene / disease rows = `runA`.** On the connected ontology of a term-level builder run, when
+every term annotated by a row is one of the terms, the two row loops never fail and are the
+annotation call history of C02 / C16: one `AOp.annotate .gene` per gene row, one
+`AOp.annotate .omim` / `.orpha` per OMIM / ORPHA row that is not `NOT`, in file order. -/
+theorem C09_rows_annotation_calls (fs : List TermFact) (es : List EdgeFact) (a oc : Onto)
+    (hrun : runB (fs.map TermFact.op ++ es.map edgeOp) {} = some a) (hac : Acyclic a)
+    (hc : a.connectAll = .ok oc) (grows : List GRow) (drows : List DRow)
+    (hg : ∀ r ∈ grows, ∃ f ∈ fs, f.id = r.h)
+    (hd : ∀ orpha d name q h tail, DRow.link orpha d name q h tail ∈ drows → ∃ f ∈ fs, f.id = h) :
+    (annotateGenes grows oc).bind (annotateDiseases drows) = .ok (runA (fileOps grows drows) oc) := by
+  apply rows_eq_runA ⟨hrun, hac, hc⟩
+  intro op hop
+  rcases List.mem_append.1 hop with h | h
+  · obtain ⟨r, hr, rfl⟩ := List.mem_map.1 h
+    exact hg r hr
+  · obtain ⟨orpha, d, name, q, hh, tail, hrow, rfl⟩ := (mem_diseaseOps drows op).1 h
+    exact hd orpha d name q hh tail hrow
+
+/-- **Failure case: unknown term.** When a gene row, or an OMIM / ORPHA row that is not `NOT`, names
+a term that is not a stanza of hp.obo (the obo file itself being well formed: ids below 10^7,
+`is_a` targets present, no cycle), the load fails with `DoesNotExist` — for both loaders and every
+order of stanzas and rows. -/
+theorem C09_unknown_term (tr : Bool) (R : Rendering) (h : R.Ok)
+    (hsmall : ∀ s ∈ R.terms, s.1.id < maxId) (hisa : IsaClosed R.terms) (hac : AcyclicFacts R.terms)
+    (hbad : (∃ r ∈ R.grows, ¬ IsStanza R.terms r.h) ∨
+      (∃ orpha d name q hh tail, DRow.link orpha d name q hh tail ∈ R.drows ∧ ¬ IsStanza R.terms hh)) :
+    loadJax tr R.obo (R.gene tr) R.hpoa = .err .doesNotExist := by
+  rw [loadJax_rendering tr R h]
+  apply buildFromFacts_unknown_term R.terms R.version R.grows R.drows (itemsTerms_bare _) hsmall hisa hac
+  rcases hbad with ⟨r, hr, hn⟩ | ⟨orpha, d, name, q, hh, tail, hrow, hn⟩
+  · exact ⟨r.op, List.mem_append_left _ (List.mem_map_of_mem hr), hn⟩
+  · exact ⟨.annotate (dbKind orpha) d name hh,
+      List.mem_append_right _ ((mem_diseaseOps _ _).2 ⟨orpha, d, name, q, hh, tail, hrow, rfl⟩), hn⟩
+
+/-- **The loaded ontology IS the builder's.** For a rendering of well-formed facts (`WFfacts`: term
+ids below 10^7, every `is_a` target and every annotated term a stanza, no is_a cycle, at most
+65 535 distinct genes / OMIM / ORPHA diseases, stanzas for `HP:0000001` and `HP:0000118`) the load
+succeeds, and returns literally the ontology `d` that the checked Builder API produces from the
+facts in file order — `new_term` per stanza, `add_parent` per `is_a`, `connect_all_terms`,
+`annotate_*` per row, `calculate_information_content`, `build_with_defaults`, none of them failing —
+with the release version of the header. -/
+theorem C09_file_is_builder_run (tr : Bool) (R : Rendering) (h : R.Ok)
+    (W : WFfacts R.terms R.grows R.drows) :
+    ∃ a oc r d,
+      runB ((stanzaFacts R.terms).map TermFact.op ++ (stanzaEdges R.terms).map edgeOp) {} = some a ∧
+      Acyclic a ∧ a.connectAll = .ok oc ∧
+      (runA (fileOps R.grows R.drows) oc).calcIc = .ok r ∧ r.buildWithDefaults = .ok d ∧
+      loadJax tr R.obo (R.gene tr) R.hpoa = .ok { d with version := R.version } := by
+  obtain ⟨a, oc, r, d, B, hl⟩ := buildFromFacts_ok R.terms R.version R.grows R.drows (itemsTerms_bare _) W
+  exact ⟨a, oc, r, d, B.run, B.acyclic, B.connect, B.ic, B.build, (loadJax_rendering tr R h).trans hl⟩
+
+/-- permuting the blocks of hp.obo permutes the term stanzas the loader sees -/
+theorem C09_stanza_order (items1 items2 : List Item) (h : items1.Perm items2) :
+    (itemsTerms items1).Perm (itemsTerms items2) :=
+  itemsTerms_perm h
+
+/-- **C09_file — the loaders build the ontology the files describe, whatever the order.**
+Two renderings (either loader each) whose term stanzas, gene rows and disease rows are permutations
+of each other (`List.Perm`; by `C09_stanza_order` in particular any permutation of the blocks of
+hp.obo — and also other `is_a` labels, extra tags, other stanza types, header lines, file endings),
+with the same release date, of well-formed facts (`WFfacts`, see `C09_file_is_builder_run`) with one
+stanza per term id (`Functional`) and one name per gene / disease id (`NamesFunctional`): both
+loads succeed, and the two ontologies have equal lookups — `getT` for every term id (name, obsolete
+flag, replacement, parents, children, ancestors, linked genes / OMIM / ORPHA diseases, the three
+information-content pairs), `getR` for every kind and record id (name, direct terms) — equal
+categories, equal modifier roots and the release version of the header. Only the iteration order of
+terms and records may differ. (Via `C16_terms`, `C16_records_and_terms`, `C16_ic_and_defaults`.) -/
+theorem C09_file (tr1 tr2 : Bool) (R1 R2 : Rendering) (h1 : R1.Ok) (h2 : R2.Ok)
+    (hv : R1.version = R2.version) (hpt : R1.terms.Perm R2.terms) (hpg : R1.grows.Perm R2.grows)
+    (hpd : R1.drows.Perm R2.drows) (W : WFfacts R1.terms R1.grows R1.drows)
+    (hfun : Functional (stanzaFacts R1.terms))
+    (nameOf : Kind → Nat → List Char) (hn : NamesFunctional nameOf (fileOps R1.grows R1.drows)) :
+    ∃ o1 o2, loadJax tr1 R1.obo (R1.gene tr1) R1.hpoa = .ok o1 ∧
+      loadJax tr2 R2.obo (R2.gene tr2) R2.hpoa = .ok o2 ∧
+      (∀ j, getT o1.terms j = getT o2.terms j) ∧
+      (∀ k r, getR (o1.recs k) r = getR (o2.recs k) r) ∧
+      o1.categories = o2.categories ∧ o1.modifier = o2.modifier ∧
+      o1.version = R1.version ∧ o2.version = R1.version := by
+  have W2 := W.perm hpt hpg hpd
+  obtain ⟨a1, oc1, r1, d1, B1, l1⟩ := buildFromFacts_ok R1.terms R1.version R1.grows R1.drows (itemsTerms_bare _) W
+  obtain ⟨a2, oc2, r2, d2, B2, l2⟩ := buildFromFacts_ok R2.terms R2.version R2.grows R2.drows (itemsTerms_bare _) W2
+  have S := (builderRun_perm B1 B2 (stanzaFacts_perm hpt) (stanzaEdges_perm hpt) (fileOps_perm hpg hpd)
+    hfun nameOf hn).setV R1.version
+  refine ⟨_, _, (loadJax_rendering tr1 R1 h1).trans l1, (loadJax_rendering tr2 R2 h2).trans (hv ▸ l2),
+    S.terms, S.recs, S.categories, S.modifier, rfl, rfl⟩
+
+/-- **C09_file_builder — the loaded ontology is the Builder API's, and round-trips.**
+For a rendering of well-formed facts (one stanza per term id, one name per record id) and ANY
+ordering `fs`, `es`, `aops` of its term facts, is_a facts and annotation calls, the checked Builder
+API program — `new_term` per term fact, `add_parent` per is_a fact, `connect_all_terms`, `annotate_*`
+per call (`runB` / `runA`, failing calls would be ignored: there are none), `calcIc`,
+`build_with_defaults` — succeeds with some ontology `d`, the load succeeds with some `o`, `o` and `d`
+have equal lookups, categories and modifier roots (`o` additionally carries the release version of
+the header), `o` is `Reachable` (`reachable_of_builder`), and therefore — when it is encodable at
+all (`EncOK`: ids and counts fit their binary fields) — `from_bytes(as_bytes(o))` succeeds and
+returns `o` up to the documented cut of over-long names (`C07_roundtrip`). -/
+theorem C09_file_builder (tr : Bool) (R : Rendering) (h : R.Ok) (W : WFfacts R.terms R.grows R.drows)
+    (hfun : Functional (stanzaFacts R.terms))
+    (nameOf : Kind → Nat → List Char) (hn : NamesFunctional nameOf (fileOps R.grows R.drows))
+    (fs : List TermFact) (es : List EdgeFact) (aops : List AOp)
+    (hpf : (stanzaFacts R.terms).Perm fs) (hpe : (stanzaEdges R.terms).Perm es)
+    (hpa : (fileOps R.grows R.drows).Perm aops) :
+    ∃ o a oc r d, loadJax tr R.obo (R.gene tr) R.hpoa = .ok o ∧
+      runB (fs.map TermFact.op ++ es.map edgeOp) {} = some a ∧ a.connectAll = .ok oc ∧
+      (runA aops oc).calcIc = .ok r ∧ r.buildWithDefaults = .ok d ∧
+      (∀ j, getT o.terms j = getT d.terms j) ∧ (∀ k r, getR (o.recs k) r = getR (d.recs k) r) ∧
+      o.categories = d.categories ∧ o.modifier = d.modifier ∧ o.version = R.version ∧
+      Reachable o ∧
+      (EncOK o → decodeBytes (encodeOnto o) = .ok (truncOnto o) ∧ ObsTrunc o (truncOnto o)) := by
+  obtain ⟨a0, oc0, r0, d0, B0, l0⟩ := buildFromFacts_ok R.terms R.version R.grows R.drows (itemsTerms_bare _) W
+  obtain ⟨a, oc, r, d, B⟩ := builderRun_exists fs es aops
+    (by
+      intro f hf
+      obtain ⟨s, hs, rfl⟩ := List.mem_map.1 (hpf.mem_iff.2 hf)
+      exact W.small s hs)
+    (by
+      obtain ⟨rank, hr⟩ := acyclicEdges_of_facts R.terms W.acyclic
+      exact ⟨rank, fun e he => hr e (hpe.mem_iff.2 he)⟩)
+    (by
+      intro k ids hnd hall
+      apply W.fit k ids hnd
+      intro i hi
+      obtain ⟨op, hop, he⟩ := hall i hi
+      exact ⟨op, hpa.mem_iff.2 hop, he⟩)
+    (by
+      obtain ⟨f, hf, e⟩ := (mem_stanzaFacts R.terms 1).2 W.root
+      exact ⟨f, hpf.mem_iff.1 hf, e⟩)
+    (by
+      obtain ⟨f, hf, e⟩ := (mem_stanzaFacts R.terms _).2 W.phenotype
+      exact ⟨f, hpf.mem_iff.1 hf, e⟩)
+  have S := builderRun_perm B0 B hpf hpe hpa hfun nameOf hn
+  have hreach : Reachable (setV R.version d0) := reachable_setV B0.reachable R.version
+  exact ⟨_, a, oc, r, d, (loadJax_rendering tr R h).trans l0, B.run, B.connect, B.ic, B.build, S.terms,
+    fun k r => by rw [recs_setV]; exact S.recs k r, S.categories, S.modifier, rfl, hreach,
+    fun he => C07.C07_roundtrip _ hreach he⟩
+
 /-! ## non-vacuity -/
 example : (Item.other "[Typedef]".toList ["id: has_part".toList, "is_a: HP:0000001 ! All".toList]).Ok := by
   refine ⟨?_, ?_, ?_⟩
@@ -265,5 +449,156 @@ example : (DRow.excluded true "7x".toList "Only: excluded".toList "HP:zz".toList
 set_option maxRecDepth 8192 in
 example : readObo "format-version: 1.2\n\n[Term]\nid: HP:0000001\nname: A\n\n[Typedef]\nid: x\n".toList =
     .ok { terms := [({ id := 1, name := "A".toList }, [])], version := (0, 0, 0) } := by decide
+
+/-! non-vacuity of `C09_file` / `C09_file_builder`: a three-term ontology (`HP:1` ← `HP:118` ← `HP:5`)
+with an ignored `[Typedef]` stanza, a gene on `HP:5` (twice), an OMIM disease on `HP:5`, an ORPHA
+disease on `HP:118`, a `NOT` row and a comment; the second rendering has the blocks and rows in
+reverse order, other `is_a` labels, another header line and other endings. -/
+
+def exItems : List Item :=
+  [.stanza 1 "All".toList false none [] [] [],
+   .other "[Typedef]".toList ["id: has_part".toList],
+   .stanza 118 "Phenotypic abnormality".toList false none [(1, "All".toList)] [("def".toList, "x: y".toList)] [],
+   .stanza 5 "Leaf: é".toList false none [(118, "Phenotypic abnormality".toList)] [] []]
+
+def exItems2 : List Item :=
+  [.stanza 5 "Leaf: é".toList false none [(118, "other label".toList)] [] [("comment".toList, "c".toList)],
+   .stanza 118 "Phenotypic abnormality".toList false none [(1, "".toList)] [] [],
+   .stanza 1 "All".toList false none [] [] []]
+
+def exGrows : List GRow := [⟨10, "G1".toList, 5, "Leaf".toList, []⟩, ⟨10, "G1".toList, 5, "Leaf".toList, "\tx".toList⟩]
+
+def exDrows : List DRow :=
+  [.ignored "#comment".toList, .link false 7 "D 7".toList [] 5 [], .link true 7 "O 7".toList [] 118 "\tPMID:1".toList,
+   .excluded false "7".toList "D 7".toList "HP:0000001".toList []]
+
+def exR1 : Rendering :=
+  { pre := [], post := [], y1 := 2, y2 := 0, y3 := 2, y4 := 3, m1 := 1, m2 := 0, d1 := 0, d2 := 9,
+    items := exItems, oboEnd := ['\n'], hdr := "ncbi_gene_id\tgene_symbol".toList, grows := exGrows, geneEnd := ['\n'],
+    drows := exDrows, hpoaEnd := [] }
+
+def exR2 : Rendering :=
+  { pre := [], post := ["ontology: hp".toList], y1 := 2, y2 := 0, y3 := 2, y4 := 3, m1 := 1, m2 := 0, d1 := 0, d2 := 9,
+    items := exItems2, oboEnd := [], hdr := "#hdr".toList, grows := exGrows.reverse, geneEnd := [],
+    drows := exDrows.reverse, hpoaEnd := ['\n'] }
+
+private theorem exItems_ok : ∀ i ∈ exItems ++ exItems2, i.Ok := by
+  have neutralDef : Neutral "def".toList := by unfold Neutral; decide
+  have neutralComment : Neutral "comment".toList := by unfold Neutral; decide
+  intro i hi
+  simp only [exItems, exItems2, List.cons_append, List.nil_append, List.mem_cons, List.not_mem_nil, or_false] at hi
+  rcases hi with rfl | rfl | rfl | rfl | rfl | rfl | rfl
+  · exact ⟨by decide, by simp, by simp, ⟨by decide, by simp, by simp⟩⟩
+  · refine ⟨?_, ?_, ?_⟩
+    · intro l hl
+      simp at hl
+      rcases hl with rfl | rfl <;> exact ⟨by decide, by decide, by decide⟩
+    · intro s; simp [termPrefix, stripPrefix]
+    · intro s; simp [formatPrefix, startsWith]
+  · refine ⟨by decide, by simp, by simp, ⟨by decide, ?_, ?_⟩⟩
+    · intro p hp; simp at hp; subst hp; exact ⟨by decide, by decide⟩
+    · intro e he; simp at he; subst he
+      exact ⟨neutralDef, ⟨by decide, by decide, by decide⟩, by decide, by decide⟩
+  · refine ⟨by decide, by simp, by simp, ⟨by decide, ?_, by simp⟩⟩
+    intro p hp; simp at hp; subst hp; exact ⟨by decide, by decide⟩
+  · refine ⟨by decide, by simp, by simp, ⟨by decide, ?_, ?_⟩⟩
+    · intro p hp; simp at hp; subst hp; exact ⟨by decide, by decide⟩
+    · intro e he; simp at he; subst he
+      exact ⟨neutralComment, ⟨by decide, by decide, by decide⟩, by decide, by decide⟩
+  · refine ⟨by decide, by simp, by simp, ⟨by decide, ?_, by simp⟩⟩
+    intro p hp; simp at hp; subst hp; exact ⟨by decide, by decide⟩
+  · exact ⟨by decide, by simp, by simp, ⟨by decide, by simp, by simp⟩⟩
+
+private theorem exGrows_ok : ∀ r ∈ exGrows, r.Ok := by
+  intro r hr
+  simp only [exGrows, List.mem_cons, List.not_mem_nil, or_false] at hr
+  rcases hr with rfl | rfl
+  · exact ⟨by decide, by decide, ⟨by decide, by decide, by decide⟩, ⟨by decide, by decide, by decide⟩,
+      Or.inl rfl, by decide, by decide⟩
+  · exact ⟨by decide, by decide, ⟨by decide, by decide, by decide⟩, ⟨by decide, by decide, by decide⟩,
+      Or.inr ⟨_, rfl⟩, by decide, by decide⟩
+
+private theorem exDrows_ok : ∀ r ∈ exDrows, r.Ok := by
+  intro r hr
+  simp only [exDrows, List.mem_cons, List.not_mem_nil, or_false] at hr
+  rcases hr with rfl | rfl | rfl | rfl
+  · exact ⟨by decide, by decide, by decide, by decide, by decide⟩
+  · exact ⟨by decide, by decide, ⟨by decide, by decide, by decide⟩, ⟨by decide, by decide, by decide⟩,
+      by decide, Or.inl rfl, by decide, by decide⟩
+  · exact ⟨by decide, by decide, ⟨by decide, by decide, by decide⟩, ⟨by decide, by decide, by decide⟩,
+      by decide, Or.inr ⟨_, rfl⟩, by decide, by decide⟩
+  · exact ⟨⟨by decide, by decide, by decide⟩, ⟨by decide, by decide, by decide⟩, ⟨by decide, by decide, by decide⟩,
+      ⟨'1', by decide, by decide⟩, Or.inl rfl, by decide, by decide⟩
+
+private theorem exR1_ok : exR1.Ok :=
+  { y1 := by decide, y2 := by decide, y3 := by decide, y4 := by decide, m1 := by decide, m2 := by decide,
+    d1 := by decide, d2 := by decide, pre := by simp [exR1], header := by simp [exR1],
+    items := fun i hi => exItems_ok i (List.mem_append_left _ hi), oboEnd := Or.inr (Or.inl rfl),
+    hdrLine := by decide, hdr := Or.inr (Or.inl (by decide)), grows := exGrows_ok,
+    geneEnd := Or.inr ⟨rfl, by decide⟩, drows := exDrows_ok, hpoaEnd := Or.inl rfl }
+
+private theorem exR2_ok : exR2.Ok :=
+  { y1 := by decide, y2 := by decide, y3 := by decide, y4 := by decide, m1 := by decide, m2 := by decide,
+    d1 := by decide, d2 := by decide, pre := by simp [exR2],
+    header := by
+      intro l hl; simp [exR2] at hl; subst hl; exact ⟨by decide, by decide, by decide⟩,
+    items := fun i hi => exItems_ok i (List.mem_append_right _ hi), oboEnd := Or.inl rfl,
+    hdrLine := by decide, hdr := Or.inl (by decide),
+    grows := fun r hr => exGrows_ok r (List.mem_reverse.1 hr), geneEnd := Or.inl rfl,
+    drows := fun r hr => exDrows_ok r (List.mem_reverse.1 hr),
+    hpoaEnd := Or.inr ⟨rfl, by decide⟩ }
+
+/-- same facts: the stanzas of the second file are a permutation of those of the first (although the
+block lists differ in length, labels and extra tags), rows reversed, same release date -/
+private theorem exPerm : exR1.terms.Perm exR2.terms ∧ exR1.grows.Perm exR2.grows ∧ exR1.drows.Perm exR2.drows ∧
+    exR1.version = exR2.version ∧ exR1.terms ≠ exR2.terms :=
+  ⟨by
+    show (itemsTerms exItems).Perm (itemsTerms exItems2)
+    simp only [exItems, exItems2, itemsTerms, List.map_cons, List.map_nil]
+    exact (List.reverse_perm _).symm,
+   (List.reverse_perm _).symm, (List.reverse_perm _).symm, rfl, by decide⟩
+
+private theorem exWF : WFfacts exR1.terms exR1.grows exR1.drows :=
+  { small := by decide
+    isa := by unfold IsaClosed; decide
+    acyclic := ⟨fun j => if j = 1 then 0 else if j = 118 then 1 else 2, by decide⟩
+    geneTerms := by unfold IsStanza; decide
+    diseaseTerms := by
+      intro orpha d name q h tail hm
+      simp only [exR1, exDrows, List.mem_cons, List.not_mem_nil, or_false, reduceCtorEq, false_or,
+        DRow.link.injEq] at hm
+      rcases hm with ⟨_, _, _, _, rfl, _⟩ | ⟨_, _, _, _, rfl, _⟩ <;> unfold IsStanza <;> decide
+    fit := countsFit_of_length _ (by decide)
+    root := by unfold IsStanza; decide
+    phenotype := by unfold IsStanza; decide }
+
+private theorem exFun : Functional (stanzaFacts exR1.terms) := by unfold Functional; decide
+
+/-- one name per gene / disease id, stated on the rows (`namesFunctional_fileOps`) -/
+def exNameOf (k : Kind) (_ : Nat) : List Char :=
+  match k with | .gene => "G1".toList | .omim => "D 7".toList | .orpha => "O 7".toList
+private theorem exNames : NamesFunctional exNameOf (fileOps exR1.grows exR1.drows) := by
+  apply namesFunctional_fileOps
+  · decide
+  · intro orpha d name q h tail hm
+    simp only [exR1, exDrows, List.mem_cons, List.not_mem_nil, or_false, reduceCtorEq, false_or,
+      DRow.link.injEq] at hm
+    rcases hm with ⟨rfl, _, rfl, _⟩ | ⟨rfl, _, rfl, _⟩ <;> rfl
+
+/-- a row naming `HP:0000009`, which has no stanza: hypothesis of `C09_unknown_term` -/
+example : ∃ r ∈ [(⟨10, "G1".toList, 9, [], []⟩ : GRow)], ¬ IsStanza exR1.terms r.h := by
+  unfold IsStanza; decide
+
+/-- all hypotheses of `C09_file` together (first file through `load_from_jax_files`, second through
+the transitive loader), and of `C09_file_builder` with the facts handed to the Builder in reverse -/
+example : ∃ o1 o2, loadJax false exR1.obo (exR1.gene false) exR1.hpoa = .ok o1 ∧
+    loadJax true exR2.obo (exR2.gene true) exR2.hpoa = .ok o2 ∧ (∀ j, getT o1.terms j = getT o2.terms j) := by
+  obtain ⟨o1, o2, l1, l2, ht, _⟩ := C09_file false true exR1 exR2 exR1_ok exR2_ok exPerm.2.2.2.1 exPerm.1
+    exPerm.2.1 exPerm.2.2.1 exWF exFun exNameOf exNames
+  exact ⟨o1, o2, l1, l2, ht⟩
+example : ∃ o, loadJax false exR1.obo (exR1.gene false) exR1.hpoa = .ok o ∧ Reachable o := by
+  obtain ⟨o, _, _, _, _, l, _, _, _, _, _, _, _, _, _, hr, _⟩ := C09_file_builder false exR1 exR1_ok exWF exFun
+    exNameOf exNames _ _ _ (List.reverse_perm _).symm (List.reverse_perm _).symm (List.reverse_perm _).symm
+  exact ⟨o, l, hr⟩
 
 end Hpo.C09
